@@ -623,47 +623,113 @@ func checkBookkeeping(c *Ctx) {
 		c.Lost("R7.3", "the distinct-values helper")
 	}
 
-	// Definitions(): keeps len == 1, sorted by a comparator whose last step compares the terminals
+	// Definitions(): keeps the single definition of exactly the singly-defined terminals, sorted by a comparator that breaks
+	// ties by the terminal itself. The loop may sit in a helper; the comparator may be a literal or a named function.
 	if fd := FuncDecl(sp, "SymbolTable", "Definitions"); fd != nil {
 		c.Analysed(funcKey(sp, fd))
-		keeps, sorted, total := false, false, false
-		ast.Inspect(fd.Body, func(n ast.Node) bool {
-			switch s := n.(type) {
-			case *ast.IfStmt:
-				if b, ok := ast.Unparen(s.Cond).(*ast.BinaryExpr); ok && b.Op == token.EQL {
-					if v, ok := constInt(info, b.Y); ok && v == 1 {
-						ast.Inspect(s.Body, func(m ast.Node) bool {
-							if call, ok := m.(*ast.CallExpr); ok {
-								if id, ok := call.Fun.(*ast.Ident); ok && id.Name == "append" && len(call.Args) == 2 {
-									if ix, ok := ast.Unparen(call.Args[1]).(*ast.IndexExpr); ok {
-										if k, ok := constInt(info, ix.Index); ok && k == 0 {
-											keeps = true
-										}
-									}
-								}
+		keepsFirst := func(st ast.Stmt) string {
+			label := ""
+			ast.Inspect(st, func(m ast.Node) bool {
+				if call, ok := m.(*ast.CallExpr); ok {
+					if id, ok := call.Fun.(*ast.Ident); ok && id.Name == "append" && len(call.Args) == 2 {
+						if ix, ok := ast.Unparen(call.Args[1]).(*ast.IndexExpr); ok {
+							if k, ok := constInt(info, ix.Index); ok && k == 0 {
+								label = "keep"
 							}
-							return true
-						})
+						}
 					}
 				}
-			case *ast.CallExpr:
-				if fo, ok := objOf(info, s.Fun).(*types.Func); ok && fo.Pkg() != nil && sortFuncs[fo.Pkg().Path()+"."+fo.Name()] && len(s.Args) == 2 {
-					sorted = true
-					if fl, ok := s.Args[1].(*ast.FuncLit); ok && len(fl.Body.List) > 0 {
-						if r, ok := fl.Body.List[len(fl.Body.List)-1].(*ast.ReturnStmt); ok && len(r.Results) == 1 {
-							if call, ok := ast.Unparen(r.Results[0]).(*ast.CallExpr); ok {
-								if f2 := objOf(info, call.Fun); f2 != nil && strings.HasPrefix(f2.Name(), "Cmp") {
-									total = true
-								}
+				return true
+			})
+			return label
+		}
+		// the loop that tests the number of definitions, in Definitions or in a helper it calls
+		var loop *ast.RangeStmt
+		deepInspect(sp, fd, 2, func(n ast.Node) bool {
+			if rs, ok := n.(*ast.RangeStmt); ok && loop == nil {
+				has := false
+				ast.Inspect(rs.Body, func(m ast.Node) bool {
+					if call, ok := m.(*ast.CallExpr); ok && len(call.Args) == 1 {
+						if id, ok := call.Fun.(*ast.Ident); ok && id.Name == "len" {
+							if sel, ok := ast.Unparen(call.Args[0]).(*ast.SelectorExpr); ok && sel.Sel.Name == defsField {
+								has = true
 							}
+						}
+					}
+					return true
+				})
+				if has {
+					loop = rs
+				}
+			}
+			return true
+		})
+		if loop == nil {
+			c.Undecided("R7.3", "Definitions keeps exactly the singly-defined terminals' definitions", fd.Pos(), "no loop that tests the number of definitions was found in Definitions or its helpers")
+		} else {
+			k0, d0 := lenCase(info, loop.Body.List, 0, keepsFirst)
+			k1, d1 := lenCase(info, loop.Body.List, 1, keepsFirst)
+			k2, d2 := lenCase(info, loop.Body.List, 2, keepsFirst)
+			if d0 && d1 && d2 {
+				c.Check("R7.3", "Definitions keeps exactly the singly-defined terminals' definitions", fd.Pos(), !k0["keep"] && k1["keep"] && !k2["keep"],
+					fmt.Sprintf("a definition is kept for counts: 0:%v 1:%v 2:%v (expected only for exactly one definition)", k0["keep"], k1["keep"], k2["keep"]))
+			} else {
+				c.Undecided("R7.3", "Definitions keeps exactly the singly-defined terminals' definitions", fd.Pos(), "the conditions under which a definition is kept are not all comparisons of the number of definitions with constants")
+			}
+		}
+		sorted, total, comparatorSeen := false, false, false
+		endsInKeyCompare := func(body *ast.BlockStmt) bool {
+			found := false
+			ast.Inspect(body, func(m ast.Node) bool {
+				if call, ok := m.(*ast.CallExpr); ok && len(call.Args) == 2 {
+					if f2 := objOf(info, call.Fun); f2 != nil && (strings.HasPrefix(f2.Name(), "Cmp") || f2.Name() == "Compare") {
+						bothTerm := true
+						for _, a := range call.Args {
+							if sel, ok := ast.Unparen(a).(*ast.SelectorExpr); !ok || sel.Sel.Name != "Terminal" {
+								bothTerm = false
+							}
+						}
+						if bothTerm {
+							found = true
+						}
+					}
+				}
+				return true
+			})
+			return found
+		}
+		deepInspect(sp, fd, 2, func(n ast.Node) bool {
+			call, ok := n.(*ast.CallExpr)
+			if !ok {
+				return true
+			}
+			if fo, ok := objOf(info, call.Fun).(*types.Func); ok && fo.Pkg() != nil && sortFuncs[fo.Pkg().Path()+"."+fo.Name()] && len(call.Args) == 2 {
+				sorted = true
+				switch cmpv := ast.Unparen(call.Args[1]).(type) {
+				case *ast.FuncLit:
+					comparatorSeen = true
+					total = endsInKeyCompare(cmpv.Body)
+				case *ast.Ident:
+					if cf, ok := info.Uses[cmpv].(*types.Func); ok {
+						if cd := declOfFunc(sp, cf); cd != nil && cd.Body != nil {
+							comparatorSeen = true
+							total = endsInKeyCompare(cd.Body)
 						}
 					}
 				}
 			}
 			return true
 		})
-		c.Check("R7.3", "Definitions keeps exactly the singly-defined terminals' definitions", fd.Pos(), keeps, "no `if len(e.definitions) == 1 { append(defs, e.definitions[0]) }`")
-		c.Check("R7.3", "Definitions sorts by a total order (comparator ends in a key comparison)", fd.Pos(), sorted && total, "the list is not sorted, or ties are not broken by the terminal itself")
+		switch {
+		case sorted && total:
+			c.Pass("R7.3", "Definitions sorts by a total order (comparator ends in a key comparison)", fd.Pos(), "")
+		case !sorted:
+			c.Fail("R7.3", "Definitions sorts by a total order (comparator ends in a key comparison)", fd.Pos(), "the list is not sorted: its order is the iteration order of the table")
+		case comparatorSeen:
+			c.Fail("R7.3", "Definitions sorts by a total order (comparator ends in a key comparison)", fd.Pos(), "ties are not broken by comparing the terminals themselves: the order of equal elements is unspecified")
+		default:
+			c.Undecided("R7.3", "Definitions sorts by a total order (comparator ends in a key comparison)", fd.Pos(), "the comparator was not found")
+		}
 	} else {
 		c.Lost("R7.3", "SymbolTable.Definitions")
 	}
